@@ -160,7 +160,9 @@ func TestVerifC01Names(t *testing.T) {
 		for _, name := range names {
 			b := GetBreaker(name)
 			evs = append(evs, verifEv{"e": "get", "n": name, "i": id(b)})
-			evs = append(evs, verifEv{"e": "obs", "n": name, "w": c01Sums(c01Google(t, b))})
+			if w, ok := c01Open(b).sums(); ok {
+				evs = append(evs, verifEv{"e": "obs", "n": name, "w": w})
+			}
 		}
 		for _, name := range names {
 			em.Emit(verifEv{"e": "reset", "t": t0, "fair": false, "eager": true, "focus": name})
